@@ -7,6 +7,7 @@ open KamalProxy Proto
 def parseEv (t : String) : Option HEv :=
   match t.splitOn "." with
   | ["ct", h] => (decB h).map .setCT
+  | ["cl", n] => n.toNat?.map .setCL
   | ["wh", n] => n.toNat?.map .writeHeader
   | ["w", h] => (decB h).map .write
   | ["f"] => some .flush
@@ -59,7 +60,8 @@ def stepLine (_ : Unit) (line : String) : Unit × String :=
         | some evs =>
           let r := respMw mm mb evs
           let out := (mergeWrites (r.out.filter fun e => e ≠ .write [])).map showO
-          ((), s!"respmw out={if out.isEmpty then "-" else ",".intercalate out} panicked={showBool r.panicked} leftover={r.spills - r.removed}")
+          ((), s!"respmw out={if out.isEmpty then "-" else ",".intercalate out} panicked={showBool r.panicked} leftover={r.spills - r.removed}" ++
+            (if toks.any (·.startsWith "cl.") then s!" cl={match r.cl with | some n => toString n | none => "-"}" else ""))
     | _, _, _ => ((), "bad-op")
 
 end KamalProxy.Driver.Buffer
